@@ -127,11 +127,80 @@ def many_records_case(ctx, rng, idx, tmp):
     ctx.distinct_add(("many-records", n))
 
 
+def record_count_boundaries_case(ctx, rng, idx, tmp):
+    """Files whose number of records (1 header + nodes + hyperedges) is exactly, one below and one above the round numbers a
+    writer or reader may batch by (powers of two from 64 to 8192; 100, 1000, 10000): the round trip does not depend on where a
+    chunk happens to end.  Each container type in turn; compared through the listings."""
+    import hypergraphx as hgx
+    from hypergraphx.readwrite import save_hypergraph, load_hypergraph
+
+    kind = "HDTM"[(idx // 4) % 4]
+    ctx.event("record-count-boundaries:" + kind)
+    rounds = [64, 128, 256, 512, 1024, 2048, 4096, 8192, 100, 1000, 10000]
+    counts = sorted({r + d for r in rounds for d in (-1, 0, 1)})
+    if ctx.tier == "quick":
+        counts = [c for c in counts if c <= 4097 or c in (9999, 10000, 10001)][:: 1]
+    for total in counts:
+        n_nodes = max(4, total // 3)
+        n_edges = total - 1 - n_nodes
+        h = history.new_container(kind, True)
+        h.add_nodes(list(range(n_nodes)))
+
+        def args(i):
+            # the i-th pair {a, a+k} in a fixed enumeration (all distinct), every third one widened to a triple
+            k, a = 1 + i // n_nodes, i % n_nodes
+            ns = (a, (a + k) % n_nodes) if i % 3 else (a, (a + k) % n_nodes, (a + 2 * k + 1) % n_nodes)
+            ns = tuple(sorted(set(ns)))
+            if kind == "D":
+                return ((ns[0],), tuple(ns[1:]))
+            return ns
+
+        extra = {"H": lambda i: (), "D": lambda i: (), "T": lambda i: (i,), "M": lambda i: ("L%d" % i,)}[kind]
+        for i in range(n_edges):
+            # (time / layer = i keeps every record distinct for T and M; H and D use distinct node sets as far as they go)
+            try:
+                h.add_edge(args(i), *extra(i), weight=1 + (i % 4) * 0.5)
+            except Exception as e:
+                ctx.note("boundary-build-refused:" + type(e).__name__)
+        S0 = observe(h)
+        i_ = n_edges
+        while 1 + len(S0.nodes) + len(S0.edges) < total and i_ < 3 * total:  # (node sets that coincided: top up to the exact count)
+            try:
+                h.add_edge(args(i_ * 2 + 1), *extra(i_), weight=2)
+            except Exception:
+                pass
+            i_ += 1
+            S0 = observe(h) if i_ % 8 == 0 or i_ >= 3 * total - 1 else S0
+        S0 = observe(h)
+        n_rec = 1 + len(S0.nodes) + len(S0.edges)
+        if n_rec == total:
+            ctx.event("record-count-exact")
+        path = os.path.join(tmp, f"b{total}.json")
+
+        def wit(x=None):
+            return {"kind": kind, "records": n_rec, "nodes": len(S0.nodes), "hyperedges": len(S0.edges), "extra": repr(x)[:300]}
+
+        try:
+            save_hypergraph(h, path, binary=False)
+            g = load_hypergraph(path)
+            G = observe(g)
+        except Exception as e:
+            ctx.check("C06:roundtrip", False, f"C06:{kind}:json:record-count-boundary:raised:{type(e).__name__}", lambda: wit(repr(e)))
+            continue
+        d = norm_state(G).diff(norm_state(S0))
+        ctx.check("C06:roundtrip", not d and type(g) is type(h), f"C06:{kind}:json:record-count-boundary:loaded-differs:" + ",".join(d), wit)
+        ctx.set_add("record-counts", n_rec)
+        os.remove(path)
+    ctx.distinct_add(("record-count-boundaries", kind))
+
+
 def run_case(ctx, rng, idx):
     mode = idx % 4
     tmp = tempfile.mkdtemp(prefix="hgx_c06_")
     try:
-        if idx == 8 or (ctx.tier == "thorough" and idx % 8000 == 8):
+        if idx in (12, 16, 20, 24) or (ctx.tier == "thorough" and idx % 8000 in (12, 16, 20, 24)):
+            record_count_boundaries_case(ctx, rng, idx, tmp)
+        elif idx == 8 or (ctx.tier == "thorough" and idx % 8000 == 8):
             many_records_case(ctx, rng, idx, tmp)
         elif mode in (0, 1):
             roundtrip_case(ctx, rng, idx, tmp)
